@@ -1,18 +1,23 @@
 """C14 — coordinate systems and rigid-body geometry are mutually consistent (DESIGN.md 6/C14).
 
-Tie: numeric correspondence (|impl - model| <= 1e-9 * scale, angles compared modulo 360 degrees)
-between the Lean model lean/PyYetiVerif/Model/Coord.lean (run at Float through Drivers/C14.lean,
-doubles transported as bit patterns) and pyyeti.nastran.n2p:
+Tie: correspondence between the Lean models lean/PyYetiVerif/Model/{Coord,CoordRbe3,CoordChain}.lean (run at Float
+through Drivers/C14.lean, doubles transported as bit patterns) and pyyeti.nastran.n2p.
+Numeric streams (|impl - model| <= 1e-9 * scale, angles compared modulo 360 degrees):
   cs    build_coords / mkusetcoordinfo / mkcordcardinfo     (A-B-C construction, chaining)
   loc   addgrid (+ make_uset for scalar points), uset rows   (forward maps)
-  get   getcoordinates by grid id and by xyz                 (inverse maps, |sin|>|cos| branch)
+  get   getcoordinates by grid id and by xyz                 (inverse maps, |sin|>|cos| branch; azimuths exactly
+                                                              on 0, +-90, 180, 270, +-45, +-135 in rotated frames)
   rb    rbgeom_uset (ref = grid id or xyz)                   (local frames, zero rows)
   rbg   rbgeom (ref = row index or xyz)
   mv    rbmove          rbc   rbcoords
-  rbe3  formrbe3 (no UM_List; UM_List is covered by the oracle only)
+  rbe3  formrbe3: weights, component selections (also non-ascending digits), Ind_List not in uset order, and the
+        UM_List kinds indep / dep / mixed / first-ind / first-dep / wrong size (shape and ValueError compared exactly)
   rep   replace_basic_cs (both call forms)
-on random worlds: chains of up to 5 CORD2R/C/S systems of all type mixes, grids entered in any system
-with any output system, scalar points and q-set grids mixed in.
+Exact streams (ids, levels, error kind and payload, key order; numbers of the resolved systems to 1e-9):
+  bc    build_coords on shuffled cards: valid trees, equal / unequal duplicates, missing / self / circular references
+  mk    mkusetcoordinfo(card, None, coordref) card by card with one dictionary (known id, new id, ValueError)
+on random worlds: chains of up to 5 CORD2R/C/S systems of all type mixes, grids entered in any system with any
+output system, scalar points and q-set grids mixed in.
 
 The oracle (`search`) restates the property on the public API only, with its own numpy geometry.
 """
@@ -39,52 +44,72 @@ THEOREMS = [
         "rbcoords_recovers replace_basic_rigid "
         "sph_roundtrip_inv chain_consistent_sph sph_branch_safe sph_branch_abs_needed rbcoords_recovers_all "
         "rbe3_normal_invertible rbe3_alg_reproduces rbe3_reproduces_rb rbe3_rigid_motion rbe3_rows_are_rbgeom_uset "
+        "rbe3_fullrank_three_grids rbe3_reproduces_rb_three_grids "
         "rbe3_um_indep rbe3_um_mixed rbe3_um_dep um_plan_indep_partial um_plan_dep_partial "
         "um_plan_dep_counterexample um_plan_indep_counterexample "
-        "chain_order_irrelevant chain_circular_refused chain_resolved"
+        "chain_order_irrelevant chain_circular_refused chain_dup_unequal_refused chain_resolved"
     ).split()
 ]
 TRUSTED = [
     "correspondence harness harness/props/c14.py (numeric comparison 1e-9*scale; angles modulo 360 deg)",
     "libm sin/cos/atan2/sqrt, numpy matmul/cross/norm, scipy.linalg.lstsq/solve: modelled by Lean Float "
-    "operations and a Gaussian elimination; agreement to 1e-9 is measured, not proved",
-    "ℝ instance of TransOps: atan2 y x := Complex.arg (x + i y); theorems are over ℝ, not over doubles",
-    "uset set/DOF bookkeeping (mksetpv, mkdofpv, mat_intersect, expanddof) is property C18's subject; here "
-    "it is exercised through the API only",
+    "operations and a Gaussian elimination (`gaussTab`); agreement to 1e-9 is measured, not proved; the theorems "
+    "about formrbe3 hold for every exact solver (`ExactSolve`)",
+    "ℝ instance of TransOps: atan2 y x := Complex.arg (x + i y); theorems are over ℝ (the formrbe3 algebra over any "
+    "field), not over doubles",
+    "uset set/DOF bookkeeping (mksetpv, mkdofpv, expanddof) is property C18's subject; here DOF are identified by "
+    "their uset row (computed by the harness) and mat_intersect / index2bool / flippv are modelled by `umPlan`",
 ]
 RULE = (
     "a case is one (world, operation): world = chain of 0..5 CORD2R/C/S systems (random reference structure, "
     "depth <= 5, all type mixes) + 2..8 uset entries (grids entered in any system with any output system, "
-    "scalar points, q-set grids, per-DOF set strings), operation in cs/loc/get/rb/mv/rbc/rbe3/rep; non-trivial = "
+    "scalar points, q-set grids, per-DOF set strings), operation in cs/loc/get/rb/mv/rbc/rbe3/rep; or one set of "
+    "cards for bc/mk (1..7 cards + duplicates / missing / circular references, shuffled); non-trivial = "
     "the world has at least one cylindrical or spherical system or a chain of depth >= 2 involved in the "
-    "operation; distinct by the world's numbers and the operation's parameters"
+    "operation (every rbe3, bc, mk case counts); distinct by the world's numbers and the operation's parameters"
 )
 ASSUMPTIONS = [
     "grids are kept away from the polar singularities (rho >= 0.1 in every cylindrical/spherical system they are "
     "expressed in), A-B-C points are non-collinear (sin of the angle > 0.2)",
-    "formrbe3 cases have cond(rb' W rb) <= 1e6; worse-conditioned ones are skipped and counted",
+    "formrbe3 cases have cond(rb' W rb) <= 1e6 (<= 1e4 with a UM_List, and the block formrbe3 inverts for the "
+    "UM_List has cond <= 1e2); worse-conditioned ones are skipped and counted",
+    "coordinate-system ids are positive (a card with id 0 would redefine the basic system; the real loop need not "
+    "terminate then and the model answers `diverges`)",
 ]
 PARTIAL = (
-    "partial: rbe3_reproduces_rb (formrbe3 maps rigid motion of the independent grids to the dependent grid) "
-    "and formrbe3's UM_List variants are checked by the oracle and the correspondence only, not proved; "
-    "sph_roundtrip is proved in the direction fwd(inv q) = q only; all theorems are over the reals "
-    "(round-off is measured by the correspondence, never proved)"
+    "partial: um_plan_indep_partial / um_plan_dep_partial — formrbe3 picks its UM_List branch by the truth value of "
+    "index arrays, so an m-set whose only dependent DOF is the first one raises and an m-set whose only independent "
+    "DOF is the first one returns too few rows (findings rbe3-um-mset-holds-only-the-first-dependent-dof / "
+    "-independent-dof; counterexamples proved, the model follows the code); that umPlan's index lists are a "
+    "partition (IsPartition) and that a well-founded set of cards always resolves (build_coords succeeds) are tied by "
+    "the correspondence only; the rbe3 theorems assume an exact linear solver; all geometry theorems are over the "
+    "reals (round-off is measured by the correspondence, never proved)"
 )
 MANIFEST = {
-    "level_text": "Proof (Lean 4, Mathlib, standard axioms) about one polymorphic model of n2p's coordinate and "
+    "level_text": "Proof (Lean 4, Mathlib, standard axioms) about polymorphic models of n2p's coordinate and "
     "rigid-body geometry: the A-B-C construction gives an orthonormal right-handed triad for non-collinear points "
-    "and every resolved chain has an orthogonal transform; cylindrical/spherical forward∘inverse maps are the "
-    "identity off the polar axis (and inverse∘forward for cylindrical in the principal range); a point entered in a "
-    "system and queried back is itself; rbgeom_uset rows are R_gridᵀ·[I, −(p−ref)×; 0, I] with R_grid the unit "
-    "tangent frame of the coordinate curves at the grid (rectangular, cylindrical, spherical); rbmove is "
-    "reference-point consistent; rbcoords recovers p − ref; replace_basic_cs preserves distances and relative "
-    "orientations. The same definitions run at Float and are compared numerically (1e-9) with addgrid, "
-    "getcoordinates, build_coords, mkcordcardinfo, rbgeom_uset, rbgeom, rbmove, rbcoords, formrbe3 and "
-    "replace_basic_cs on random chains of all type mixes with scalar points and q-set grids.",
+    "and every resolved chain has an orthogonal transform; cylindrical and spherical forward∘inverse maps are the "
+    "identity off the polar axis and inverse∘forward in the principal range (the |sin φ| > |cos φ| choice always "
+    "divides by a number of magnitude ≥ 1/√2; without the absolute values it divides by 0 at φ = 180°); a point "
+    "entered in a system and queried back is itself; rbgeom_uset rows are R_gridᵀ·[I, −(p−ref)×; 0, I] with R_grid "
+    "the unit tangent frame of the coordinate curves at the grid; rbmove is reference-point consistent; rbcoords "
+    "recovers p − ref in every branch; replace_basic_cs preserves distances and relative orientations; formrbe3's "
+    "matrix times the rigid-body rows of the independent DOF (relative to any point) is the rigid-body rows of the "
+    "dependent DOF for positive weights and full column rank (which three non-collinear grids with their "
+    "translations guarantee), for every exact solver, and the three UM_List re-partitions keep that; build_coords "
+    "does not depend on the order of the cards, refuses reference cycles / undefined references / unequal "
+    "duplicates, and every entry of its dictionary is the A-B-C construction of its card relative to the entry of "
+    "the card's reference. The same definitions run at Float and are compared (numbers to 1e-9, ids / levels / "
+    "errors / shapes exactly) with addgrid, getcoordinates, build_coords, mkusetcoordinfo, mkcordcardinfo, "
+    "rbgeom_uset, rbgeom, rbmove, rbcoords, formrbe3 (all UM_List kinds) and replace_basic_cs on random chains of "
+    "all type mixes with scalar points and q-set grids, including azimuths exactly on the branch boundaries.",
     "level_note": "Trusted: Lean kernel; propext, Classical.choice, Quot.sound; the Python harness; libm/LAPACK "
-    "agreement with the Float model is measured. formrbe3's least-squares identity and UM_List are oracle-checked "
-    "only. Polar singularities are excluded by the property.",
-    "technique": "Lean 4 proof over ℝ of a polymorphic executable model + numeric differential correspondence at Float",
+    "agreement with the Float model is measured. formrbe3's choice of UM_List branch is proved only away from the "
+    "two index-truth-test inputs (reported as findings); that build_coords succeeds on every well-founded card set "
+    "and that umPlan's lists partition the DOF are correspondence-only. Polar singularities are excluded by the "
+    "property.",
+    "technique": "Lean 4 proof over ℝ / any field of polymorphic executable models + numeric and exact differential "
+    "correspondence at Float",
 }
 
 TOL = 1e-9
@@ -300,7 +325,10 @@ def _build(w, style, rng=None):
             rng.shuffle(rows)
             if rows and rng.random() < 0.3:
                 rows.append(rows[0].copy())  # equal duplicates are quietly ignored
-        coordref = n2p.build_coords(np.array(rows)) if rows else {}
+        try:
+            coordref = _guard(lambda: n2p.build_coords(np.array(rows))) if rows else {}
+        except _Hang:
+            raise RuntimeError("build_coords was still running after the time limit")
     else:
         coordref = {}
         for c in cards:
@@ -403,7 +431,12 @@ def _plan_world(ctx, rng, w, items):
 
     def uset_cr():
         if "u" not in built:
-            built["u"] = _build(w, style, rng)
+            try:
+                built["u"] = _build(w, style, rng)
+            except Exception as e:  # every operation on this world reports the same refusal
+                built["u"] = e
+        if isinstance(built["u"], Exception):
+            raise built["u"]
         return built["u"]
 
     inp0 = {"world": w, "style": style}
@@ -841,6 +874,34 @@ def _cmp_rbe3(rep, got, inp):
     return None if ok else (got.tolist(), model.tolist())
 
 
+class _Hang(BaseException):
+    pass
+
+
+_HANGS = [0]
+
+
+def _guard(fn, secs=None):
+    """run fn(); raise _Hang if it is still running after `secs` (a changed loop may not terminate); the limit
+    shrinks after a few hangs so that a tree in which the loop never ends is still checked in bounded time"""
+    import signal
+
+    if secs is None:
+        secs = 5.0 if _HANGS[0] < 3 else 0.25
+
+    def handler(sig, frame):
+        _HANGS[0] += 1
+        raise _Hang()
+
+    old = signal.signal(signal.SIGALRM, handler)
+    signal.setitimer(signal.ITIMER_REAL, secs)
+    try:
+        return fn()
+    finally:
+        signal.setitimer(signal.ITIMER_REAL, 0)
+        signal.signal(signal.SIGALRM, old)
+
+
 def _gen_cards(rng):
     """-> (scenario, rows): rows = [cid, typ, refcid, A(3), B(3), C(3)] in the order given to build_coords"""
     scen = rng.choice(["valid"] * 6 + ["dup-equal", "dup-equal3", "dup-unequal", "dup-unequal2", "missing-ref",
@@ -937,7 +998,9 @@ def _plan_bc(ctx, rng, items):
     def impl():
         arr = np.array(rows, float) if rows else np.zeros((0, 12))
         try:
-            return n2p.build_coords(arr)
+            return _guard(lambda: n2p.build_coords(arr))
+        except _Hang:
+            return ("err", "does-not-terminate", [])
         except RuntimeError as e:
             msg = str(e)
             if "duplicate but unequal" in msg:
@@ -952,18 +1015,22 @@ def _plan_bc(ctx, rng, items):
             raise Infra("C14 driver answered bad-op for a bc request")
         if t[0] == "err":
             model = ("err", t[1], [int(x) for x in (t[3:] if t[1] == "unresolved" else t[2:3])])
+            ctx.count("bc:err-" + t[1])
             if not isinstance(got, tuple) or (got[0], got[1], list(got[2])) != model:
                 return (got if isinstance(got, tuple) else "dictionary with keys %s" % [int(k) for k in got], model)
-            ctx.count("bc:err-" + t[1])
             return None
-        if isinstance(got, tuple):
-            return (got, rep[:80])
         L = int(t[2])
         lev = {int(t[3 + 2 * k]): int(t[4 + 2 * k]) for k in range(L)}
         d = t[3 + 2 * L :]
         if d[0] != "D":
             raise Infra("C14 driver: malformed bc reply")
         mdict = _parse_dict(d[1:])
+        if lev and max(lev.values()) > 1:
+            ctx.count("bc:levels>=2")
+        if lev and max(lev.values()) >= 4:
+            ctx.count("bc:levels>=4")
+        if isinstance(got, tuple):
+            return (got, rep[:80])
         if not rows:
             return None if len(got) == 0 and not mdict else ("keys %s" % list(got), "empty")
         keys = [int(k) for k in got]
@@ -973,10 +1040,6 @@ def _plan_bc(ctx, rng, items):
         lv = [lev.get(k) for k in keys[1:]]
         if None in lv or lv != sorted(lv):
             return ("key order %s" % keys, "levels %s" % lev)
-        if max(lv) > 1:
-            ctx.count("bc:levels>=2")
-        if max(lv) >= 4:
-            ctx.count("bc:levels>=4")
         return _dict_diff(got, mdict, rows)
 
     ctx.count("bc:scen-" + scen)
@@ -1026,13 +1089,13 @@ def _plan_mk(ctx, rng, items):
         t = rep.split()
         if t[0] == "bad-op" or len(t) < 2 or t[1] != "D":
             raise Infra("C14 driver: malformed mk reply %r" % rep[:60])
+        for ch in t[0][1:]:
+            ctx.count("mk:status-" + ch)
         if isinstance(got, str):
             return (got, t[0])
         st, cr = got
         if st != t[0]:
             return (st, t[0])
-        for ch in st[1:]:
-            ctx.count("mk:status-" + ch)
         return _dict_diff({int(k): v for k, v in cr.items()}, _parse_dict(t[2:]), rows)
 
     ctx.count("mk:mode-" + mode)
@@ -1599,7 +1662,11 @@ def _oracle_chain(ctx, rng, n):
         arr = np.array(rows, float) if rows else np.zeros((0, 12))
         bad = scen in ("dup-unequal", "dup-unequal2", "missing-ref", "self-ref", "cycle2", "cycle3")
         try:
-            cr = n2p.build_coords(arr)
+            cr = _guard(lambda: n2p.build_coords(arr))
+        except _Hang:
+            ctx.fail("build-coords-does-not-terminate-%s" % scen, "build_coords was still running after the time limit", inp,
+                     "no result", "a dictionary or RuntimeError")
+            continue
         except RuntimeError as ex:
             if not bad:
                 ctx.fail("build-coords-refuses-%s" % scen, "build_coords raised on a valid set of cards: %s" % ex, inp,
@@ -1644,7 +1711,7 @@ def _oracle_chain(ctx, rng, n):
         else:
             rows2 = rows[:]
             rng.shuffle(rows2)
-            cr2 = n2p.build_coords(np.array(rows2, float) if rows2 else np.zeros((0, 12)))
+            cr2 = _guard(lambda: n2p.build_coords(np.array(rows2, float) if rows2 else np.zeros((0, 12))))
             if sorted(map(int, cr2)) != sorted(map(int, cr)) or any(
                     not np.array_equal(cr[k], cr2[k]) for k in cr):
                 ctx.fail("build-coords-order-dependent", "the dictionary depends on the order of the cards", inp,
